@@ -543,6 +543,8 @@ async def _e2e_ble(loop, peer, case):
             return peer.respond(items)
         w.acc.setup_handler = handler
         w.acc.setup_reply_pieces = case.get("pieces")
+        if case.get("endless"):
+            w.acc.endless_fragments["setup"] = True
         w.acc.feature_flags = 1 if case.get("with_auth") else 0
         w.controller.pairings.clear()
         desc = HomeKitAdvertisement.from_cache("00:11:22:33:44:55", case["acc_id"].lower(), 1, 1)
@@ -580,8 +582,20 @@ def run_e2e(case, R):
     transport = case["transport"]
     R.cls("fault:" + peer.name, "transport:" + transport)
     with injected(peer.a, peer.lt_seed):
-        result, exc, extra = vtime.run(E2E[transport], peer, case)
+        try:
+            result, exc, extra = vtime.run(E2E[transport], peer, case, max_iterations=300_000)
+        except vtime.VBudget:
+            R.nt()
+            R.fail("C03.never-terminates", f"fault={peer.fault} transport={transport}" + (" (the accessory withholds the last fragment of a reply and keeps sending empty fragments)" if case.get("endless") else "")
+                   + ": pairing neither returned nor failed within 300,000 loop iterations", transport=transport)
+            return
     what = f"fault={peer.fault} transport={transport}" + (f" retry={case['retry']}" if case.get("retry") else "")
+    if case.get("endless"):
+        R.nt()
+        R.cls("ble:endless-fragments")
+        if result is not None:
+            R.fail("C03.forged-reply-accepted", f"{what}: pairing data returned although a reply was never completed", family="endless-fragments")
+        return
     if peer.requests == 0 and exc is not None:
         raise exc          # nothing reached the accessory: the world is broken, not the code under test
     if case.get("retry"):
@@ -638,6 +652,12 @@ def enum_retry(tier):
                 yield {"k": SEED * 611953 + i, "code": "%03d-%02d-%03d" % (i * 37 % 1000, i % 100, (i * 7) % 1000), "acc_id": "AA:BB:CC:DD:EE:FF",
                        "ios_id": "decc6fa3-de3e-41c9-adba-ef7409821bfc", "with_auth": bool(i % 2), "salt_zeros": 0, "fault": ["none"], "transport": "ble",
                        "att": att, "pieces": pieces, "retry": retry}
+
+
+def enum_endless(tier):
+    for i, pieces in enumerate((60, 100, 200)):
+        yield {"k": SEED * 49979693 + i, "code": "101-01-101", "acc_id": "AA:BB:CC:DD:EE:FF", "ios_id": "ios-endless", "with_auth": bool(i % 2), "salt_zeros": 0, "fault": ["none"],
+               "transport": "ble", "att": 155, "pieces": pieces, "endless": True}
 
 
 def enum_e2e(tier):
@@ -785,6 +805,8 @@ SPEC = Property(
         Layer("ble-restarted-exchanges", run_e2e, enumerate=enum_retry, exhaustive=True,
               space="BleDiscovery pairing where finish_pairing runs twice: the link drops when M1/M3/M5 arrives (the library retries), or a mistyped code is followed by the right one; "
                     "the accessory starts a fresh exchange (new salt, new B) for every M1", min_nontrivial=10),
+        Layer("ble-unfinished-fragments", run_e2e, enumerate=enum_endless, exhaustive=True,
+              space="BLE pair-setup whose fragmented reply is never completed (empty FragmentData for ever) x 3 piece sizes: it must end with an error"),
         Layer("end-to-end-generated", run_e2e, strategy=e2e_cases, n={"quick": 300, "thorough": 6000}, min_nontrivial=100),
     ],
     assumptions=["reference accessory (vlib/refhap.py RefPairSetup, SrpExchange) written from HAP R2 5.6 and RFC 5054",
